@@ -17,7 +17,146 @@ def _(token, succ, ignored):
     invariant(0, token == chain(succ, old(token), K) and len(ignored) == old(len(ignored)) + K
                  and forall(lambda k: implies(0 <= k and k < K, isinstance(as_ref(chain(succ, old(token), k), 'RawTokenModel'), Placeholder) and ignored[old(len(ignored)) + k] == chain(succ, old(token), k)), chain(succ, old(token), k))
                  and forall(lambda k: implies(0 <= k and k < old(len(ignored)), ignored[k] == old(ignored[k])), ignored[k]))
-    ensures(result == chain(succ, old(token), K_loop0) and not isinstance(result, Placeholder))
-    ensures(len(ignored) == old(len(ignored)) + K_loop0)
-    ensures(forall(lambda k: implies(0 <= k and k < K_loop0, isinstance(as_ref(chain(succ, old(token), k), 'RawTokenModel'), Placeholder) and ignored[old(len(ignored)) + k] == chain(succ, old(token), k)), chain(succ, old(token), k)))
+    # caller-facing form: the number of skipped tokens is the growth of `ignored`
+    ensures(len(ignored) >= old(len(ignored)) and result == chain(succ, old(token), len(ignored) - old(len(ignored))) and not isinstance(result, Placeholder))
+    ensures(forall(lambda k: implies(0 <= k and k < len(ignored) - old(len(ignored)), isinstance(as_ref(chain(succ, old(token), k), 'RawTokenModel'), Placeholder) and ignored[old(len(ignored)) + k] == chain(succ, old(token), k)), chain(succ, old(token), k)))
+    ensures(forall(lambda k: implies(0 <= k and k < len(ignored) - old(len(ignored)), ignored[old(len(ignored)) + k] == chain(succ, old(token), k)), ignored[old(len(ignored)) + k]))
     ensures(forall(lambda k: implies(0 <= k and k < old(len(ignored)), ignored[k] == old(ignored[k])), ignored[k]))
+
+# ================================================================ _claim_comment (store seen through its abstract interface)
+@macro
+def AbsInv(s):
+    return (s.g_vlen >= 0
+        and forall(lambda k: implies(0 <= k and k < s.g_vlen, allocated(as_ref(sel(s.g_view, k), 'RawTokenModel')) and as_ref(sel(s.g_view, k), 'RawTokenModel').g_store is s and as_ref(sel(s.g_view, k), 'RawTokenModel').g_pos == k), sel(s.g_view, k)))
+
+@macro
+def In(s, t):
+    return t != None and t.g_store is s and 0 <= t.g_pos and t.g_pos < s.g_vlen and sel(s.g_view, t.g_pos) is t
+
+@macro
+def IsPh(t):
+    return isinstance(as_ref(t, 'RawTokenModel'), Placeholder)
+
+@contract('TokenStore.get_next')
+def _(self, token):
+    requires(AbsInv(self) and In(self, token))
+    modifies()
+    ensures(result == ite(token.g_pos + 1 < self.g_vlen, sel(self.g_view, token.g_pos + 1), 0))
+
+@contract('TokenStore.get_prev')
+def _(self, token):
+    requires(AbsInv(self) and In(self, token))
+    modifies()
+    ensures(result == ite(token.g_pos > 0, sel(self.g_view, token.g_pos - 1), 0))
+
+# splice with re-offered tokens: every offered token is free or lies inside the removed range (the refusal of anything else is a proved L0 postcondition)
+@contract('TokenStore.splice')
+def _(self, tokens, ref, del_end):
+    requires(AbsInv(self) and In(self, ref) and In(self, del_end) and ref.g_pos <= del_end.g_pos and tokens != None)
+    requires(forall(lambda k: implies(0 <= k and k < len(tokens), tokens[k] != None and (tokens[k].g_store is None or (tokens[k].g_store is self and ref.g_pos <= tokens[k].g_pos and tokens[k].g_pos <= del_end.g_pos))), tokens[k]))
+    requires(forall(lambda j, k: implies(0 <= j and j < k and k < len(tokens), tokens[j] != tokens[k])))
+    modifies('TokenStore.g_view@self', 'TokenStore.g_vlen@self', 'RawTokenModel.g_store', 'RawTokenModel.g_pos')
+    ensures(self.g_vlen == old(self.g_vlen) - (old(del_end.g_pos) + 1 - old(ref.g_pos)) + len(tokens) and AbsInv(self))
+    ensures(forall(lambda k: sel(self.g_view, k) == ite(k < old(ref.g_pos), sel(old(self.g_view), k),
+                             ite(k < old(ref.g_pos) + len(tokens), sel(elems(tokens), k - old(ref.g_pos)), sel(old(self.g_view), k - len(tokens) + (old(del_end.g_pos) + 1 - old(ref.g_pos)))))))
+
+@contract('BlockComment.claimed')
+def _(self):
+    requires(self != None)
+    modifies()
+    ensures(result == self._claimed)
+
+@contract('BlockComment.claimed.setter')
+def _(self, claimed):
+    requires(self != None)
+    modifies('BlockComment._claimed@self')
+    ensures(self._claimed == claimed)
+
+@lemma
+def chain_next_all(A_f, A_v, n, p, N):
+    requires(0 <= p and p < n and 0 <= N and p + N <= n and forall(lambda i: implies(0 <= i and i < n, sel(A_f, sel(A_v, i)) == ite(i + 1 < n, sel(A_v, i + 1), 0))))
+    ensures(forall(lambda k: implies(0 <= k and k <= N, chain(A_f, sel(A_v, p), k) == ite(p + k < n, sel(A_v, p + k), 0)), chain(A_f, sel(A_v, p), k)))
+    hint(chain(A_f, sel(A_v, p), N + 1) == sel(A_f, chain(A_f, sel(A_v, p), N)))
+    induction('N', 0)
+
+@lemma
+def chain_prev_all(A_f, A_v, n, p, N):
+    requires(0 <= p and p < n and 0 <= N and N <= p + 1 and forall(lambda i: implies(0 <= i and i < n, sel(A_f, sel(A_v, i)) == ite(i > 0, sel(A_v, i - 1), 0))))
+    ensures(forall(lambda k: implies(0 <= k and k <= N, chain(A_f, sel(A_v, p), k) == ite(k <= p, sel(A_v, p - k), 0)), chain(A_f, sel(A_v, p), k)))
+    hint(chain(A_f, sel(A_v, p), N + 1) == sel(A_f, chain(A_f, sel(A_v, p), N)))
+    induction('N', 0)
+
+# ghost on the store: g_ca / g_cb = number of Placeholder tokens between the start token and the newline / between the newline and the comment
+@macro
+def ShapeFwd(s, v, p, a, b, c):      # view[p+1 .. p+a] placeholders, view[p+1+a] a Newline, view[p+2+a .. p+1+a+b] placeholders, view[p+2+a+b] == c
+    return (0 <= a and 0 <= b and p + 2 + a + b < s.g_vlen and sel(v, p + 2 + a + b) == c and isinstance(as_ref(sel(v, p + 1 + a), 'RawTokenModel'), Newline)
+        and forall(lambda k: implies((p + 1 <= k and k <= p + a) or (p + 2 + a <= k and k <= p + 1 + a + b), IsPh(sel(v, k))), sel(v, k)))
+
+@macro
+def ShapeBwd(s, v, p, a, b, c):      # mirrored: view[p-a .. p-1] placeholders, view[p-1-a] a Newline, view[p-1-a-b .. p-2-a] placeholders, view[p-2-a-b] == c
+    return (0 <= a and 0 <= b and p - 2 - a - b >= 0 and sel(v, p - 2 - a - b) == c and isinstance(as_ref(sel(v, p - 1 - a), 'RawTokenModel'), Newline)
+        and forall(lambda k: implies((p - a <= k and k <= p - 1) or (p - 1 - a - b <= k and k <= p - 2 - a), IsPh(sel(v, k))), sel(v, k)))
+
+@contract('_claim_comment')
+def _(current, token_store, start, backwards, ignore_if_already_claimed):
+    types(ignored='list[RawTokenModel]')
+    requires(token_store != None and AbsInv(token_store) and In(token_store, start))
+    modifies('TokenStore.g_view@token_store', 'TokenStore.g_vlen@token_store', 'RawTokenModel.g_store', 'RawTokenModel.g_pos', 'BlockComment._claimed', 'list[RawTokenModel]@fresh',
+             'TokenStore.g_ca@token_store', 'TokenStore.g_cb@token_store')
+    raises('ValueError', 'TokenStore.g_view', 'TokenStore.g_vlen', 'RawTokenModel.g_store', 'RawTokenModel.g_pos', 'BlockComment._claimed')
+    ghost('token_store:g_ca', g_a)
+    ghost('token_store:g_cb', len(ignored) - g_a)
+    after_stmt('ignored: list[base.RawTokenModel] = []', 'let', 'g_a', 0)
+    after_stmt('newline = _take_ignored(first, succ, ignored)', 'let', 'g_a', len(ignored))
+    # ---- proof steps: the walk with get_next / get_prev is a walk along the view
+    after_stmt('first = succ(start)', 'use_if', not backwards and start.g_pos + 1 < token_store.g_vlen, 'chain_next_all', succ, token_store.g_view, token_store.g_vlen, start.g_pos + 1, token_store.g_vlen - start.g_pos - 1)
+    after_stmt('first = succ(start)', 'use_if', backwards and start.g_pos > 0, 'chain_prev_all', succ, token_store.g_view, token_store.g_vlen, start.g_pos - 1, start.g_pos)
+    after_stmt('first = succ(start)', 'assert', implies(not backwards, first == ite(start.g_pos + 1 < token_store.g_vlen, sel(token_store.g_view, start.g_pos + 1), 0)) and implies(backwards, first == ite(start.g_pos > 0, sel(token_store.g_view, start.g_pos - 1), 0)))
+    after_stmt('first = succ(start)', 'assert', implies(first != None and not backwards, chain(succ, first, token_store.g_vlen - start.g_pos - 1) == 0) and implies(first != None and backwards, chain(succ, first, start.g_pos) == 0))
+    after_stmt('newline = _take_ignored(first, succ, ignored)', 'assert', implies(not backwards, g_a <= token_store.g_vlen - start.g_pos - 1) and implies(backwards, g_a <= start.g_pos))
+    after_stmt('newline = _take_ignored(first, succ, ignored)', 'assert', implies(not backwards, newline == ite(start.g_pos + 1 + g_a < token_store.g_vlen, sel(token_store.g_view, start.g_pos + 1 + g_a), 0))
+                                                                          and implies(backwards, newline == ite(g_a <= start.g_pos - 1, sel(token_store.g_view, start.g_pos - 1 - g_a), 0)))
+    after_stmt('newline = _take_ignored(first, succ, ignored)', 'assert', forall(lambda j: implies(0 <= j and j < g_a, ignored[j] == sel(token_store.g_view, ite(backwards, start.g_pos - 1 - j, start.g_pos + 1 + j)) and IsPh(ignored[j])), ignored[j]))
+    # second walk, from the token next to the newline
+    after_stmt('comment = _take_ignored(succ(newline), succ, ignored)', 'use_if', not backwards and start.g_pos + 2 + g_a < token_store.g_vlen, 'chain_next_all', succ, token_store.g_view, token_store.g_vlen, start.g_pos + 2 + g_a, token_store.g_vlen - start.g_pos - 2 - g_a)
+    after_stmt('comment = _take_ignored(succ(newline), succ, ignored)', 'use_if', backwards and start.g_pos - 2 - g_a >= 0, 'chain_prev_all', succ, token_store.g_view, token_store.g_vlen, start.g_pos - 2 - g_a, start.g_pos - 1 - g_a)
+    after_stmt('comment = _take_ignored(succ(newline), succ, ignored)', 'assert', implies(not backwards, sel(succ, newline) == ite(start.g_pos + 2 + g_a < token_store.g_vlen, sel(token_store.g_view, start.g_pos + 2 + g_a), 0))
+                                                                                  and implies(backwards, sel(succ, newline) == ite(start.g_pos - 2 - g_a >= 0, sel(token_store.g_view, start.g_pos - 2 - g_a), 0)))
+    after_stmt('comment = _take_ignored(succ(newline), succ, ignored)', 'assert', implies(sel(succ, newline) != 0 and not backwards, chain(succ, sel(succ, newline), token_store.g_vlen - start.g_pos - 2 - g_a) == 0)
+                                                                                  and implies(sel(succ, newline) != 0 and backwards, chain(succ, sel(succ, newline), start.g_pos - 1 - g_a) == 0)
+                                                                                  and implies(sel(succ, newline) == 0, chain(succ, sel(succ, newline), 0) == 0 and len(ignored) == g_a))
+    after_stmt('comment = _take_ignored(succ(newline), succ, ignored)', 'assert', implies(not backwards, len(ignored) - g_a <= token_store.g_vlen - start.g_pos - 2 - g_a) and implies(backwards, len(ignored) - g_a <= start.g_pos - 1 - g_a))
+    after_stmt('comment = _take_ignored(succ(newline), succ, ignored)', 'assert', implies(not backwards, comment == ite(start.g_pos + 2 + len(ignored) < token_store.g_vlen, sel(token_store.g_view, start.g_pos + 2 + len(ignored)), 0))
+                                                                                  and implies(backwards, comment == ite(start.g_pos - 2 - len(ignored) >= 0, sel(token_store.g_view, start.g_pos - 2 - len(ignored)), 0)))
+    after_stmt('comment = _take_ignored(succ(newline), succ, ignored)', 'assert', forall(lambda j: implies(g_a <= j and j < len(ignored), ignored[j] == chain(succ, sel(succ, newline), j - g_a) and IsPh(ignored[j])), ignored[j]))
+    after_stmt('comment = _take_ignored(succ(newline), succ, ignored)', 'assert', forall(lambda j: implies(0 <= j and j < len(ignored), IsPh(ignored[j]) and ignored[j] == sel(token_store.g_view,
+                        ite(backwards, ite(j < g_a, start.g_pos - 1 - j, start.g_pos - 2 - j), ite(j < g_a, start.g_pos + 1 + j, start.g_pos + 2 + j)))), ignored[j]))
+    # the same facts indexed by view position
+    exit_assert(forall(lambda k: implies(ite(backwards, old(start.g_pos) - g_a <= k and k <= old(start.g_pos) - 1, old(start.g_pos) + 1 <= k and k <= old(start.g_pos) + g_a),
+                                         ignored[ite(backwards, old(start.g_pos) - 1 - k, k - old(start.g_pos) - 1)] == sel(old(token_store.g_view), k)), sel(old(token_store.g_view), k)))
+    exit_assert(forall(lambda k: implies(ite(backwards, old(start.g_pos) - 1 - len(ignored) <= k and k <= old(start.g_pos) - 2 - g_a, old(start.g_pos) + 2 + g_a <= k and k <= old(start.g_pos) + 1 + len(ignored)),
+                                         ignored[ite(backwards, old(start.g_pos) - 2 - k, k - old(start.g_pos) - 2)] == sel(old(token_store.g_view), k)), sel(old(token_store.g_view), k)))
+    # an owner is kept; without a comment to take nothing at all changes
+    ensures(implies(old(current) != None, result is old(current)))
+    ensures(implies(old(current) != None or result is None, token_store.g_view == old(token_store.g_view) and token_store.g_vlen == old(token_store.g_vlen)
+                    and forall(lambda t: as_ref(t, 'BlockComment')._claimed == old(as_ref(t, 'BlockComment')._claimed))))
+    # a comment is taken only if it was free, and it is the only token whose flag changes
+    ensures(implies(old(current) is None and result != None, old(as_ref(result, 'BlockComment')._claimed) == False and as_ref(result, 'BlockComment')._claimed == True
+                    and forall(lambda t: implies(t != result, as_ref(t, 'BlockComment')._claimed == old(as_ref(t, 'BlockComment')._claimed)))))
+    # it is the block comment on the line next to the start token, with nothing but Placeholder tokens and one Newline in between
+    ensures(implies(old(current) is None and result != None and not backwards, ShapeFwd(token_store, old(token_store.g_view), old(start.g_pos), token_store.g_ca, token_store.g_cb, result)))
+    ensures(implies(old(current) is None and result != None and backwards, ShapeBwd(token_store, old(token_store.g_view), old(start.g_pos), token_store.g_ca, token_store.g_cb, result)))
+    # the placeholders are moved behind (in front of) the pair newline + comment: same tokens, same length, everything else in place
+    ensures(token_store.g_vlen == old(token_store.g_vlen) and AbsInv(token_store))
+    ensures(implies(old(current) is None and result != None and not backwards,
+                    forall(lambda k: sel(token_store.g_view, k) == sel(old(token_store.g_view),
+                        ite(k <= old(start.g_pos) or k > old(start.g_pos) + 2 + token_store.g_ca + token_store.g_cb, k,
+                        ite(k == old(start.g_pos) + 1, old(start.g_pos) + 1 + token_store.g_ca,
+                        ite(k == old(start.g_pos) + 2, old(start.g_pos) + 2 + token_store.g_ca + token_store.g_cb,
+                        ite(k < old(start.g_pos) + 3 + token_store.g_ca, k - 2, k - 1))))))))
+    ensures(implies(old(current) is None and result != None and backwards,
+                    forall(lambda k: sel(token_store.g_view, k) == sel(old(token_store.g_view),
+                        ite(k >= old(start.g_pos) or k < old(start.g_pos) - 2 - token_store.g_ca - token_store.g_cb, k,
+                        ite(k == old(start.g_pos) - 1, old(start.g_pos) - 1 - token_store.g_ca,
+                        ite(k == old(start.g_pos) - 2, old(start.g_pos) - 2 - token_store.g_ca - token_store.g_cb,
+                        ite(k < old(start.g_pos) - 2 - token_store.g_ca, k + 1, k + 2))))))))
